@@ -135,7 +135,7 @@ def run_map(rec, rng, i):
 
 def run_whole_chart(rec, rng, i):
     """a whole generated chart (chords, held notes over later notes, phrases, several tracks, all global kinds): same oracle"""
-    case = gen.gen_chart(rng, "hostile" if i % 2 else "realistic", n_tracks=rng.choice([1, 2, 4]), n_groups=rng.choice([5, 40, 200]),
+    case = gen.chart_or_interactions(rng, i, "hostile" if i % 2 else "realistic", rec, n_tracks=rng.choice([1, 2, 4]), n_groups=rng.choice([5, 40, 200]),
                          n_tempos=rng.choice([1, 2, 6, 25]))
     tm = model.TempoMap(case["truth"]["resolution"], case["truth"]["tempos"])
     hz = min(tm.horizon(9 * 10**5 * 10**6), max(case["horizon"], tm.ticks[-1]) + 10**4)
